@@ -111,6 +111,8 @@ def make_eval(exe):
             labels.append("small-input-blocks")
         if cfg["outg"]:
             labels.append("small-output-buffers")
+        if "randomised_effective" in labs and nstreams == 1 and len(plaintext) > 600000:
+            labels.append("randomised block beyond the randomisation table's wrap")
         stats.add(core.fp(data, cfg), bool(used), labels,
                   {"origin": "bzgen", "tape_hex": case["tape"].hex()[:80], "file_len": len(data), "plain_len": len(plaintext),
                    "streams": nstreams, "freedoms": used, "cfg": cfg} if used else None)
@@ -205,6 +207,18 @@ def directed_cases(seed, tier):
         out.append({"tape": tape, "big": True,
                     "cfg": {"n": [1, 4, 2, 16][k % 4], "sched": None if k % 2 else "serial:%d:pct:2:400" % r.randrange(10**6),
                             "ing": None, "outg": None}, "directed": True})
+    # randomised blocks long enough for the 512-entry randomisation table to wrap (first wrap near byte 268000): no
+    # encoder in use sets the bit, and generated blocks of a few KB never get past the table's first entries
+    want = 2 if tier == "quick" else 12
+    for k in range(want * 30):
+        if want == 0:
+            break
+        cand = bytes([0, 8, 0, 0, 15, 1 + k % 2, 1]) + r.randbytes(402)
+        _, plain_, gi = bzk.gen(cand, allow_big=True)
+        if "randomised_effective" in gi["labels"] and len(plain_) > 600000:
+            want -= 1
+            out.append({"tape": cand, "big": True, "wrap": True,
+                        "cfg": {"n": [1, 4][want % 2], "sched": None, "ing": None, "outg": None}, "directed": True})
     return out
 
 
@@ -242,6 +256,8 @@ def run(tier, seed):
     for f in f1:
         f["seed"], f["tier"] = seed, tier
     s0, f0 = core.pmap_cases(make_eval(exe), directed_cases(seed, tier))
+    if not s0.labels.get("randomised block beyond the randomisation table's wrap"):
+        raise core.HarnessError("directed tapes no longer reach a long randomised block: update directed_cases() to bzgen.hpp")
     if not s0.labels.get("groups_18001"):
         raise core.HarnessError("directed tapes no longer reach an 18001-group block: update directed_cases() to bzgen.hpp")
     n = 2500 if tier == "quick" else 30000
